@@ -249,14 +249,15 @@ R.contract('labtech.tasks:_task_set_context', self_type='Inst', params={'context
 rolt = R.contracts['labtech.runners.base:run_or_load_task']
 rolt.requires = []
 rolt.ensures = rolt.ensures + [
-    C("implies(use_cache, (RUN_CALLS == old(RUN_CALLS)) and FILES_SAME() and DIRS_SAME_EXCEPT(task.cache_key))", 'LOAD: run() is not called and nothing is written', serves=('C03', 'C06', 'C08')),
+    C("implies(use_cache, (RUN_CALLS == old(RUN_CALLS)) and FILES_SAME() and DIRS_SAME_EXCEPT(task.cache_key))", 'LOAD: run() is not called and nothing is written', serves=('C02', 'C03', 'C06', 'C08')),
     C("implies(use_cache, forall('Res', lambda r: implies(old(LOADABLE(THE_CACHE(), task, r)), (result.value == r.value) and (result.meta == r.meta))))", 'LOAD returns exactly what was stored for this task', serves=('C06',)),
     C("implies(not use_cache, RUN_CALLS == old(RUN_CALLS) + 1)", 'EXECUTE: run() is called exactly once', serves=('C03',)),
     C("implies((not use_cache) and CACHEABLE(task), LOADABLE(THE_CACHE(), task, result) and (task.cache_key in DIRS))", 'EXECUTE: the returned result is what was saved under the task\'s own key', serves=('C06',)),
     C("DIRS_SAME_EXCEPT(task.cache_key) and FILES_SAME_EXCEPT(task.cache_key)", 'only the task\'s own entry may change', serves=('C08',)),
     C("THE_PROCESS().name == old(THE_PROCESS().name)", 'the process name is restored', serves=('C14',)),
 ]
-rolt.raises = {'BaseException': [C("DIRS_SAME_EXCEPT(task.cache_key) and FILES_SAME_EXCEPT(task.cache_key)", 'only the task\'s own entry may change', serves=('C08',)),
+rolt.raises = {'BaseException': [C("implies(use_cache, RUN_CALLS == old(RUN_CALLS))", 'LOAD that fails: run() is still not entered (a task planned as a load has no dependencies scheduled in this call)', serves=('C02', 'C03')),
+                                 C("DIRS_SAME_EXCEPT(task.cache_key) and FILES_SAME_EXCEPT(task.cache_key)", 'only the task\'s own entry may change', serves=('C08',)),
                                  C("THE_PROCESS().name == old(THE_PROCESS().name)", 'the process name is restored', serves=('C14',))]}
 rolt.frame = ['Inst.context', '@RUN_CALLS', 'CurProc.name', 'Handle.pending'] + FSFRAME
 rolt.at_call = {'run': [C("(task.context == some(filtered_context))", 'the context handed by the runner is set on the task before run() is called', serves=('C16',))]}
